@@ -15,10 +15,12 @@ open WuffsVerif.WOps WuffsVerif.C WuffsVerif.Gen.C04
 type `t` can have: a node with a ConstValue (`isLit`) is written `<v>u`
 (unsigned int, or unsigned long when it does not fit); any other node has
 exactly `cTypeNames[t]`, or — for u8/u16 — `int` (associative and unary
-operators carry no overall cast, so their promoted type shows). -/
+operators carry no overall cast, so their promoted type shows) or `uint32_t`
+(an associative `*`, whose first operand is converted to uint32_t, and any
+associative node that has absorbed a `Nu` literal). -/
 def OpdTy (t : WTy) (isLit : Bool) (c : CTy) : Prop :=
   if isLit then (c = .u32 ∨ (t = .u64 ∧ c = .u64))
-  else (c = ctyOf t ∨ (t.isSmall = true ∧ c = .int))
+  else (c = ctyOf t ∨ (t.isSmall = true ∧ c = .int) ∨ (t.isSmall = true ∧ c = .u32))
 
 /-- the C value `x` represents the ideal value `a` of Wuffs type `t` -/
 structure Rep (t : WTy) (k : Bool) (a : Int) (x : CVal) : Prop where
@@ -204,7 +206,7 @@ macro "rep_cases" : tactic => `(tactic| (
     simp only [OpdTy, ctyOf, WTy.isSmall, Bool.false_eq_true, if_false, if_true, and_self, not_true_eq_false,
       reduceCtorEq, false_and, or_false, and_false, true_and, beq_self_eq_true, Bool.or_true,
       Bool.true_or, and_true, not_false_eq_true, beq_iff_eq, Bool.or_eq_true] at hk hxt hyt <;>
-    (try (rcases hxt with hxt | hxt)) <;> (try (rcases hyt with hyt | hyt)) <;>
+    (try (rcases hxt with hxt | hxt | hxt)) <;> (try (rcases hyt with hyt | hyt | hyt)) <;>
     (try subst hxt) <;> (try subst hyt) <;>
     simp [WOp.defined, WTy.has, WTy.max, WTy.bits, CTy.has, CTy.bits, INT_MIN, INT_MAX] at hdef hxr hyr hxw hyw))
 
@@ -244,7 +246,7 @@ macro "shift_cases" : tactic => `(tactic| (
     simp only [OpdTy, ctyOf, WTy.isSmall, Bool.false_eq_true, if_false, if_true, and_self, not_true_eq_false,
       reduceCtorEq, false_and, or_false, and_false, true_and, beq_self_eq_true, Bool.or_true,
       Bool.true_or, and_true, not_false_eq_true, beq_iff_eq, Bool.or_eq_true] at hxt <;>
-    (try (rcases hxt with hxt | hxt)) <;> (try subst hxt) <;>
+    (try (rcases hxt with hxt | hxt | hxt)) <;> (try subst hxt) <;>
     simp [WOp.defined, WTy.has, WTy.max, WTy.bits, CTy.has, CTy.bits, INT_MIN, INT_MAX] at hdef hxr hxw hlt hp hmu))
 
 /-! ## The saturating helpers of base/fundamental-public.h -/
